@@ -24,6 +24,16 @@ def run(ctx, prop):
     ctx.cov["vectors_replayed"] = len(keep)
     rec = ctx.path("fix-records.ndjson")
     summ = vlib.agv_ok(ctx, args + ["--out", rec], timeout=3000)
+    if prop == "C06":
+        # vacuity guard: the rewriters added for particular clauses must really take part in rewrites
+        seen = set()
+        for x in vlib.read_ndjson(rec):
+            if x.get("mode") == "rewrite":
+                for c in x["cands"]:
+                    for h in c["hits"]:
+                        seen.add(h.get("by"))
+        if not {"statement", "expanding-fix", "code"} <= seen:
+            raise vlib.ToolError("C06: rewrite records without hits of every rewriter family (seen %s)" % sorted(map(str, seen)))
     n, fails = vlib.validate_trace(ctx, "trace/Trace_Fix.tla", "trace/Trace_Fix.cfg", rec, timeout=3000)
     bad = set()
     for f in fails:
